@@ -221,6 +221,7 @@ class Endpoint:
                            [absn.i32(v) for v in conn.encoder.table_size_changes], absn.i32(conn.decoder.header_table_size),
                            absn.i32(conn.decoder.max_allowed_table_size)])
         put('pend', lambda: count_logical_frames(bytes(conn.incoming_buffer.data)))
+        put('hb', lambda: len(conn.incoming_buffer._headers_buffer))
         return z
 
 
